@@ -281,10 +281,13 @@ def get_env(seed, cplx):
 
 # ---------------------------------------------------------------- node table
 class Node:
-    def __init__(self, name, ar, typ, op, lin, ref, guard=None, oponly=False, linonly=False):
+    def __init__(self, name, ar, typ, op, lin, ref, guard=None, oponly=False, linonly=False, keys=(),
+                 needs_inp=False):
         self.name, self.ar, self.typ = name, ar, typ
         self.op, self.lin, self.ref, self.guard = op, lin, ref, guard
         self.oponly, self.linonly = oponly, linonly
+        self.keys = set(keys)          # input keys the node reads directly (besides those of its children)
+        self.needs_inp = needs_inp     # ref / guard get the input dictionary as first value argument
 
 
 NODES = {}
@@ -319,7 +322,7 @@ def _ptw_typ(full):
     def f(t):
         if t in ("S", "0"):
             return t
-        if t == "E":
+        if t in ("E", "Em"):
             return "0"
         if full and t in ("Mu", "Muv"):
             return t
@@ -508,26 +511,48 @@ LEAVES = {"x": ["x", "Lx"], "ab": ["a", "b", "La"], "abc": ["a", "b", "c", "La"]
 LEAFKEY = {"x": "x", "Lx": "x", "a": "a", "b": "b", "c": "c", "La": "a"}
 
 
+class XLeaf:
+    """Composite leaf: a library operator living directly on several input keys (registered by drivers)."""
+
+    def __init__(self, name, keys, typ, op, ref, guard=None, metric=None):
+        self.name, self.keys, self.typ, self.op, self.ref, self.guard, self.metric = \
+            name, set(keys), typ, op, ref, guard, metric
+
+
+XLEAVES = {}
+METRIC_HOOKS = {}      # node name -> f(E, root, path, inp, keys, cplx) -> reference metric
+
+
+def leaf_type(l):
+    return XLEAVES[l].typ if l in XLEAVES else "S"
+
+
 def is_leaf(t):
     return isinstance(t, str)
 
 
 def tree_keys(t):
     if is_leaf(t):
-        return {LEAFKEY[t]}
+        return set(XLEAVES[t].keys) if t in XLEAVES else {LEAFKEY[t]}
     if t[0] == "dtape:a":
         return {"a"}
-    r = set()
+    r = set(NODES[t[0]].keys) if t[0] in NODES else set()
     for c in t[1:]:
         r |= tree_keys(c)
     return r
 
 
+def wrap_type(ty):
+    """ptw_pre / ducktape turn a likelihood into a plain operator chain: it still carries its metric ("Em")
+    but is no LikelihoodEnergyOperator any more (cannot be summed with one / put into a Hamiltonian)"""
+    return "Em" if ty in ("E", "H", "Em") else ty
+
+
 def tree_type(t):
     if is_leaf(t):
-        return "S"
+        return leaf_type(t)
     if t[0] in WRAP_PRE or t[0] == "dtape:a":
-        return tree_type(t[1])
+        return wrap_type(tree_type(t[1]))
     n = NODES[t[0]]
     return n.typ(*[tree_type(c) for c in t[1:]])
 
@@ -574,7 +599,7 @@ def subtree(t, path):
 def enumerate_trees(leaves, unary, binary, max_size, max_depth=None, wrappers=()):
     """ALL well-typed trees with at most max_size operator nodes (and depth <= max_depth) over the alphabets.
     Returns {size: [tree, ...]}."""
-    by = {0: [(l, "S", 0) for l in leaves]}          # (tree, type, depth)
+    by = {0: [(l, leaf_type(l), 0) for l in leaves]}          # (tree, type, depth)
     for s in range(1, max_size + 1):
         cur = []
         for t, ty, d in by[s - 1]:
@@ -586,7 +611,7 @@ def enumerate_trees(leaves, unary, binary, max_size, max_depth=None, wrappers=()
                     cur.append(([u, t], r, d + 1))
             for w in wrappers:
                 if ty != "SS":
-                    cur.append(([w, t], ty, d + 1))
+                    cur.append(([w, t], wrap_type(ty), d + 1))
         for s1 in range(0, s):
             s2 = s - 1 - s1
             for t1, ty1, d1 in by[s1]:
@@ -606,6 +631,8 @@ def enumerate_trees(leaves, unary, binary, max_size, max_depth=None, wrappers=()
 def build_op(t, E):
     ift = E.ift
     if is_leaf(t):
+        if t in XLEAVES:
+            return XLEAVES[t].op(E)
         if t == "x":
             return ift.ScalingOperator(E.S, 1.)
         if t == "Lx":
@@ -624,6 +651,9 @@ def build_op(t, E):
 def lin_eval(t, E, inp):
     """inp: Field / MultiField / Linearization over the root's domain."""
     if is_leaf(t):
+        if t in XLEAVES:
+            op = XLEAVES[t].op(E)
+            return op(inp.extract(op.domain) if inp.jac is None else _restrict_lin(E, inp, op.domain))
         if t == "x":
             return inp
         if t == "Lx":
@@ -655,6 +685,10 @@ def _restrict_lin(E, lin, dom):
 def ref_eval(t, E, xp, inp, guard):
     """inp: {key: array}.  Returns array / dict of arrays."""
     if is_leaf(t):
+        if t in XLEAVES:
+            if guard and XLEAVES[t].guard is not None:
+                XLEAVES[t].guard(E, inp)
+            return XLEAVES[t].ref(E, xp, inp)
         v = inp[LEAFKEY[t]]
         return xp.asarray(E.A["M"]) @ v if t in ("La", "Lx") else v
     name = t[0]
@@ -674,6 +708,8 @@ def ref_eval(t, E, xp, inp, guard):
         return v + pr
     n = NODES[name]
     vals = [ref_eval(c, E, xp, inp, guard) for c in t[1:]]
+    if n.needs_inp:
+        vals = [inp] + vals
     if guard and n.guard is not None:
         n.guard(E, *vals)
     r = n.ref(E, xp, *vals)
@@ -740,7 +776,11 @@ def ref_metric(t, E, inp, keys, cplx, path=(), root=None):
     J^T F J with J the (autodiff) Jacobian of the likelihood's argument and F its closed-form Fisher metric."""
     root = t if root is None else root
     node = subtree(root, path)
+    if is_leaf(node):
+        return XLEAVES[node].metric(E, root, path, inp, keys, cplx)
     name = node[0]
+    if name in METRIC_HOOKS:
+        return METRIC_HOOKS[name](E, root, path, inp, keys, cplx)
     nin = sum(np.asarray(inp[k]).size for k in keys) * (2 if cplx else 1)
     if name in WRAP_PRE or name == "dtape:a":
         return ref_metric(t, E, inp, keys, cplx, path + (1,), root)
